@@ -9,6 +9,7 @@ var NoExpressionsFound = fmt.Errorf("No expressions found")
 type Generator struct {
 	env            *Zlisp
 	funcname       string
+	bindname       string
 	Tail           bool
 	scopes         int
 	instructions   []Instruction
@@ -101,7 +102,8 @@ func buildSexpFun(
 	funcargs *SexpArray,
 	funcbody []Sexp,
 	orig Sexp,
-	knownFunctions map[int]*SexpFunction) (*SexpFunction, error) {
+	knownFunctions map[int]*SexpFunction,
+	bindname string) (*SexpFunction, error) {
 
 	//defer func() { //VPrintf("exiting buildSexpFun()\n") }()
 
@@ -146,6 +148,12 @@ func buildSexpFun(
 	sfun.SetFormalSymbols(argsyms)
 	if len(name) > 0 {
 		gen.knownFunctions[env.MakeSymbol(name).number] = sfun
+	} else if len(bindname) > 0 {
+		// (def f (fn [...] ...)): the anonymous function keeps its
+		// generated name, but in its body a call of f in tail position
+		// is a candidate self call (TailCallInstr checks, when it runs,
+		// that f is bound to the running function).
+		gen.funcname = bindname
 	}
 
 	//VPrintf("\n in buildSexpFun(): DumpFunction just before %v args go onto stack\n", len(argsyms))
@@ -189,7 +197,9 @@ func (gen *Generator) GenerateFn(args []Sexp, orig Sexp) error {
 
 	//VPrintf("GenerateFn() about to call buildSexpFun\n")
 	funcbody := args[1:]
-	sfun, err := buildSexpFun(gen.env, "", funcargs, funcbody, orig, gen.knownFunctions)
+	bindname := gen.bindname
+	gen.bindname = ""
+	sfun, err := buildSexpFun(gen.env, "", funcargs, funcbody, orig, gen.knownFunctions, bindname)
 	if err != nil {
 		return err
 	}
@@ -239,7 +249,17 @@ func (gen *Generator) GenerateDef(args []Sexp, opname string) error {
 	}
 
 	gen.Tail = false
+	if lhs, isSym := args[0].(*SexpSymbol); isSym {
+		if rhs, isPair := args[1].(*SexpPair); isPair {
+			if head, isSym := rhs.Head.(*SexpSymbol); isSym && head.name == "fn" {
+				// (def f (fn ...)), (set f (fn ...)): the function
+				// can call itself by the name it is bound to.
+				gen.bindname = lhs.name
+			}
+		}
+	}
 	err := gen.Generate(args[1])
+	gen.bindname = ""
 	if err != nil {
 		return err
 	}
@@ -286,7 +306,7 @@ func (gen *Generator) GenerateDefn(args []Sexp, orig Sexp) error {
 
 	//VPrintf("GenerateDefn() about to call buildSexpFun\n")
 
-	sfun, err := buildSexpFun(gen.env, sym.name, funcargs, args[2:], orig, gen.knownFunctions)
+	sfun, err := buildSexpFun(gen.env, sym.name, funcargs, args[2:], orig, gen.knownFunctions, "")
 	if err != nil {
 		return err
 	}
@@ -345,7 +365,7 @@ func (gen *Generator) GenerateDefmac(args []Sexp, orig Sexp) error {
 			sym.name, xpr.SexpString(nil))
 	}
 
-	sfun, err := buildSexpFun(gen.env, sym.name, funcargs, args[2:], orig, gen.knownFunctions)
+	sfun, err := buildSexpFun(gen.env, sym.name, funcargs, args[2:], orig, gen.knownFunctions, "")
 	if err != nil {
 		return err
 	}
